@@ -612,7 +612,7 @@ def _close(a, b):
 
 
 def _blocks(s):
-    return [] if s == '-' else [parse_flist(b) for b in s.split('/')]
+    return [] if s == '~' else [parse_flist(b) for b in s.split('/')]      # '~': no block at all; '-': an empty block
 
 
 BRANCHES = [
